@@ -116,7 +116,7 @@ def main(argv=None):
     ncases = mod.count(tier, seed)
     if args.limit:
         ncases = min(ncases, args.limit)
-    jobs = max(1, min(args.jobs, ncases))
+    jobs = max(1, min(args.jobs, ncases, meta.get("jobs", args.jobs)))
     outdir = os.path.join(ROOT, ".work", pid)
     os.makedirs(outdir, exist_ok=True)
     for f in os.listdir(outdir):
